@@ -81,6 +81,9 @@ func genQ(r *vlib.R) aQ {
 		q.qtype = int(dns.TypeA)
 	}
 	q.qlen = len(wireName(qnameOf(q.id))) + 4
+	if r.Chance(1, 3) {
+		q.mask = r.Intn(64) // a 0x20-randomising client
+	}
 	if r.Chance(3, 4) {
 		o := aOpt{present: true, do: r.Bool()}
 		if r.Chance(2, 3) {
@@ -529,7 +532,11 @@ func gen(r *vlib.R, n int, tier string, emit func(string)) {
 				if r.Bool() {
 					emitN(fmt.Sprintf("edns wirewrite %s %s %d %s %s", vlib.Pick(r, []string{"d", "w"}), proto, packedBodyLen(q, u), q, u))
 				} else {
-					emitN(fmt.Sprintf("edns cachewire %s %s %s", vlib.B(r.Bool()), q, u))
+					if r.Bool() {
+						emitN(fmt.Sprintf("edns cachewire %s %s %s %d", vlib.B(r.Bool()), q, u, r.Intn(64)))
+					} else {
+						emitN(fmt.Sprintf("edns cachewire %s %s %s", vlib.B(r.Bool()), q, u))
+					}
 				}
 			case x < 4:
 				q := genQ(r)
@@ -539,7 +546,12 @@ func gen(r *vlib.R, n int, tier string, emit func(string)) {
 				}
 				u := genR(r, q, cfg, "tcp", 0, 0)
 				u.mode = 'e'
-				emitN(fmt.Sprintf("edns tomsg %s %s", q, u))
+				if r.Bool() {
+					// the entry was admitted under another spelling of the same name
+					emitN(fmt.Sprintf("edns tomsg %s %s %d", q, u, r.Intn(64)))
+				} else {
+					emitN(fmt.Sprintf("edns tomsg %s %s", q, u))
+				}
 			case x < 5:
 				emitN(genAccept(r))
 				// Request.ParseWire on a packet: plain, malformed, or with odd options
@@ -672,6 +684,9 @@ func gen(r *vlib.R, n int, tier string, emit func(string)) {
 				for h := 0; h < 3; h++ {
 					hq := q
 					hq.rd, hq.ad = q.rd, r.Chance(1, 4)
+					if r.Bool() {
+						hq.mask = r.Intn(64)
+					}
 					switch r.Intn(3) {
 					case 0:
 						hq.opt = aOpt{}
@@ -691,6 +706,9 @@ func gen(r *vlib.R, n int, tier string, emit func(string)) {
 					q = old
 				} else {
 					q.id, q.qlen, q.qtype, q.opcode = old.id, old.qlen, old.qtype, 0
+				}
+				if r.Bool() {
+					q.mask = r.Intn(64) // the same name in another spelling: still a hit
 				}
 			}
 			pool = append(pool, q)
